@@ -8,6 +8,21 @@ HOOK_COMMITS = subprocess.run(
 
 # id -> (built?, technique, level text, level note, design_ref)
 CHECKS = {
+ "C01": (True,
+   "crash/contract monitor at the API boundary (catch_unwind + post-conditions + snapshot tripwires + liveness probe), rustc overflow-checks as arithmetic sanitizer, child-process probes for native-stack exhaustion",
+   "Hostile protocol-respecting session histories and a boundary-value catalogue run on a build with overflow checks and debug assertions (and on the shipped optimisation profile); every host call is wrapped, every error value must leave the interpreter idle with a renderable caret, snapshot invariants run after every call and a liveness probe ends every history. Nested constructs to depth 100000 are probed in child processes on 1/2/8 MiB stacks through the evaluator and the static analyzer, so aborts are observed as signals.",
+   "wasm's 1 MiB stack is emulated by thread size on the ship profile; the debug profile (largest frames) is not probed; Miri was not needed (no unsafe code).",
+   "DESIGN.md §5 C01"),
+ "C04": (True,
+   "history + executable model (last-writer-wins map) over edit histories with unique payload ids; index-agreement invariant at the snapshot hook",
+   "Edit histories over a hot set of line numbers including 0, leading-zero spellings and the u64 extremes are applied to a real interpreter; after every operation LIST is compared with a BTreeMap model, RUN must print the unique ids in ascending order and terminate, and the snapshot hook checks that the token map and the sorted set hold the same keys. Monitor and ship builds.",
+   "Canonical listing of random token lines is taken from a fresh real interpreter.",
+   "DESIGN.md §5 C04"),
+ "C16": (True,
+   "invariant at a hook: snapshot invariants S1-S4 after every host call of hostile sessions + cap-chasing programs with predicted outcomes",
+   "The snapshot hook is evaluated after every host call (here and as a tripwire in every other session-driving check): <= 32 frames, <= 32 loops with distinct variables, array cells == product of dimensions <= 10000, kinds match name suffixes for variables, cells and parameters. A catalogue of cap chasers (recursion to 32/33 frames, 32/33 nested FORs, 5000-fold FOR re-entry and loop abandonment, DIM products around the cap, overflowing bounds, 1-19 implicit subscripts, every mistyped write path) must end with the predicted OUT OF MEMORY / TYPE MISMATCH and leave the interpreter usable. Monitor and ship builds.",
+   "Function-call frames exist only during a call and are therefore never visible at a turn boundary; their cap is checked through outcomes.",
+   "DESIGN.md §5 C16"),
  "C07": (True,
    "metamorphic self-comparison of recorded histories: uninterrupted run vs run with breaks + inspections + CONT; state-equality hook after every inspection",
    "Generated programs run once uninterrupted and again with host breaks at randomly chosen (2%/20%/100%) or exhaustively enumerated (all subsets of <= 10) turn boundaries, 0-3 side-effect-free inspection statements (including failing ones and failing user-function calls) and CONT; program outputs, consumed replies, outcome and final variables must be identical, and the snapshot hook must show the continuation-relevant state unchanged after every inspection. STOP + typed assignment + CONT is compared with the assignment written in place.",
